@@ -48,11 +48,12 @@ macro_rules! state_exec {
     ($name:ident, $fut:ty, { $($field:ident : $fty:ty),* }, $new:expr,
      send: $send:expr, close: $close:expr, try_recv: $tryr:expr, recv: $recv:expr,
      snap: $snap:expr, st: $st:expr, setid: $setid:expr,
-     extra_ops: $extra:expr, teardown: $td:expr) => {
+     extra_ops: $extra:expr, teardown: $td:expr, share: $share:expr) => {
         pub struct $name<M: RawMutex + 'static> {
             $($field: $fty,)*
             futs: Slots<$fut>,
             gone: bool,
+            view: bool,
         }
         impl<M: RawMutex + 'static> $name<M> {
             pub fn new(cfg: &[u64]) -> Self {
@@ -137,6 +138,10 @@ macro_rules! state_exec {
                 self.observe(&mut o);
                 o
             }
+            fn share(&self) -> Option<Box<dyn Exec>> {
+                let f: fn(&Self) -> Option<Self> = $share;
+                f(self).map(|x| -> Box<dyn Exec> { Box::new(x) })
+            }
         }
         impl<M: RawMutex + 'static> Drop for $name<M> {
             fn drop(&mut self) {
@@ -152,7 +157,7 @@ macro_rules! state_exec {
 
 state_exec!(BorrowedState, futures_intrusive::channel::StateReceiveFuture<'static, M, Val>,
     { ch: Option<&'static GenericStateBroadcastChannel<M, Val>> },
-    |k| BorrowedState { ch: Some(Box::leak(Box::new(GenericStateBroadcastChannel::<M, Val>::new()))), futs: Slots::new(k), gone: false },
+    |k| BorrowedState { ch: Some(Box::leak(Box::new(GenericStateBroadcastChannel::<M, Val>::new()))), futs: Slots::new(k), gone: false, view: false },
     send: |s, v| { let c = s.ch.unwrap(); Some(lib(|| c.send(v))) },
     close: |s| { let c = s.ch.unwrap(); Some(lib(|| c.close()).map(|x| x.is_newly_closed())) },
     try_recv: |s, i| { let c = s.ch.unwrap(); Some(lib(|| c.try_receive(i))) },
@@ -161,7 +166,8 @@ state_exec!(BorrowedState, futures_intrusive::channel::StateReceiveFuture<'stati
     st: |s| s.ch.unwrap().verif_state(),
     setid: |s, n| s.ch.unwrap().verif_set_state_id(n),
     extra_ops: |_s, _op| None,
-    teardown: |s| { if let Some(c) = s.ch.take() { lib(|| unsafe { drop(Box::from_raw(c as *const _ as *mut GenericStateBroadcastChannel<M, Val>)) }); } });
+    teardown: |s| { if let Some(c) = s.ch.take() { if !s.view { lib(|| unsafe { drop(Box::from_raw(c as *const _ as *mut GenericStateBroadcastChannel<M, Val>)) }); } } },
+    share: |s| s.ch.map(|c| BorrowedState { ch: Some(c), futs: Slots::new(s.futs.len()), gone: false, view: true }));
 
 state_exec!(SharedState, futures_intrusive::channel::shared::StateReceiveFuture<M, Val>,
     { senders: Vec<GenericStateSender<M, Val>>, receivers: Vec<GenericStateReceiver<M, Val>>, observer: Option<VerifStateObserver<M, Val>> },
@@ -174,7 +180,7 @@ state_exec!(SharedState, futures_intrusive::channel::shared::StateReceiveFuture<
         let observer = Some(s.verif_observer());
         let mut senders = Vec::with_capacity(16); senders.push(s);
         let mut receivers = Vec::with_capacity(16); receivers.push(r);
-        SharedState { senders, receivers, observer, futs: Slots::new(k), gone: false }
+        SharedState { senders, receivers, observer, futs: Slots::new(k), gone: false, view: false }
     },
     send: |s, v| match s.senders.first() { Some(h) => Some(lib(|| h.send(v))), None => { std::mem::forget(v); None } },
     close: |_s| None,
@@ -197,4 +203,5 @@ state_exec!(SharedState, futures_intrusive::channel::shared::StateReceiveFuture<
         while let Some(h) = s.senders.pop() { lib(move || drop(h)); }
         while let Some(h) = s.receivers.pop() { lib(move || drop(h)); }
         if let Some(o) = s.observer.take() { lib(move || drop(o)); }
-    });
+    },
+    share: |_s| None);
